@@ -741,25 +741,4 @@ end Jmes
 
 section AxiomCheck
 open Jmes.C14CFrag
-#print axioms ops_of_all
-#print axioms opsL_of_all
-#print axioms opsF_of_all
-#print axioms all_and
-#print axioms valuedB_iff
-#print axioms noDiv_of_fragOK
-#print axioms noArithF_of_fragOKF
-#print axioms fragOK_of_compile
-#print axioms search_congr_fragment
-#print axioms search_congr_fragment_float
-#print axioms search_congr_textOK
-#print axioms search_congr_textOKF
-#print axioms exText_ok
-#print axioms exTextF_ok
-#print axioms jnumber_fin_or_range
-#print axioms valuedOrRangeNum_spec
-#print axioms compile_lits_valued_or_range
-#print axioms fin_valued_or_range
-#print axioms lit_1e7000_compile
-#print axioms lit_1e7000_not_valued
-#print axioms diverges_of_check
 end AxiomCheck
